@@ -76,8 +76,11 @@ type eoEngine struct {
 	loops  map[ast.Stmt]*eoLoop
 	orig   map[types.Object][]string // slice parameter -> origins of the lists passed at call sites
 	origFn map[types.Object][]string // ... and the functions containing those call sites (parallel to orig)
-	cases  []Obligation
-	counts int
+	// non-slice AST parameter (a part of the caller's node handed to a helper, e.g. node.Arguments) ->
+	// origins of the parts passed at call sites / the calling functions
+	partOrig, partFn map[types.Object][]string
+	cases            []Obligation
+	counts           int
 }
 
 func eoIsAST(t types.Type, astPkg *types.Package) bool {
@@ -332,6 +335,19 @@ func (en *eoEngine) walkFunc(c *Ctx, g *opsEng, fd *ast.FuncDecl, astPkg *types.
 							en.orig[p] = append(en.orig[p], o)
 							en.origFn[p] = append(en.origFn[p], fd.Name.Name)
 						}
+					} else if !isSlice && len(r.path) > 0 && len(r.loops) == 0 {
+						p := csig.Params().At(i)
+						o := r.origin()
+						dup := false
+						for _, x := range en.partOrig[p] {
+							if x == o {
+								dup = true
+							}
+						}
+						if !dup {
+							en.partOrig[p] = append(en.partOrig[p], o)
+							en.partFn[p] = append(en.partFn[p], fd.Name.Name)
+						}
 					}
 				}
 				if len(r.path) == 0 && len(r.loops) == 0 {
@@ -585,6 +601,8 @@ func ruleEvalOrder(c *Ctx) []Obligation {
 		en.loops = map[ast.Stmt]*eoLoop{}
 		en.orig = map[types.Object][]string{}
 		en.origFn = map[types.Object][]string{}
+		en.partOrig = map[types.Object][]string{}
+		en.partFn = map[types.Object][]string{}
 		for _, fd := range AllFuncDecls(c.Pkg(en.rel)) {
 			en.walkFunc(c, g, fd, astPkg)
 		}
@@ -614,6 +632,17 @@ func ruleEvalOrder(c *Ctx) []Obligation {
 						for i, o := range os {
 							sites = append(sites, site{en.origFn[l.list.root][i], o})
 						}
+					}
+				}
+			} else if l.list != nil && len(l.list.path) > 0 && l.dir != "ascending" {
+				// the list is a field of a part of the caller's node that was handed over whole
+				// (compileArgs(node.Arguments) looping over args.List): same attribution
+				if os := en.partOrig[l.list.root]; len(os) > 0 {
+					sites, perOrigin = sites[:0], nil
+					for i, o := range os {
+						full := o + "." + strings.Join(l.list.path, ".")
+						sites = append(sites, site{en.partFn[l.list.root][i], full})
+						perOrigin = append(perOrigin, full)
 					}
 				}
 			}
